@@ -870,3 +870,6 @@ def replay(doc):
     finally:
         if _SCRATCH:
             shutil.rmtree(_SCRATCH, ignore_errors=True)
+
+
+RULE += ' Also (wave 9): the second pool in the SAME directory, a child process forked inside the context and terminated with SIGTERM.'
